@@ -67,6 +67,7 @@ type c05World struct {
 	regMode  int // 0 ok, 1 failed result code, 2 transport error, 3 empty reply
 	branchID int64
 	userErr  bool // the user method of this delivery fails
+	userNo   bool // ... or answers (false, nil): no error, so it counts as done
 }
 
 var c05UserErr = errors.New("user method failed")
@@ -93,7 +94,7 @@ func (s *c05Service) Commit(ctx context.Context, bac *tm.BusinessActionContext) 
 	if s.w.userErr {
 		return false, c05UserErr
 	}
-	return true, nil
+	return !s.w.userNo, nil
 }
 func (s *c05Service) Rollback(ctx context.Context, bac *tm.BusinessActionContext) (bool, error) {
 	s.w.calls = append(s.w.calls, c05Call{what: "rollback", action: s.name, xid: tm.GetXID(ctx), bac: bac})
@@ -103,7 +104,7 @@ func (s *c05Service) Rollback(ctx context.Context, bac *tm.BusinessActionContext
 	if s.w.userErr {
 		return false, c05UserErr
 	}
-	return true, nil
+	return !s.w.userNo, nil
 }
 
 func c05Setup() (*c05World, *TCCServiceProxy, *TCCServiceProxy) {
@@ -285,6 +286,7 @@ func VerifC05Tcc() {
 		}
 		reqXid, reqBranch := vrt.String(tag+".xid", 2), vrt.Int64(tag+".branch")
 		w.userErr = vrt.Bool(tag + ".user.fails")
+		w.userNo = !w.userErr && vrt.Bool(tag+".user.answers.false")
 		id := vrt.Int32(tag + ".msgid")
 		var body interface{}
 		if rollback {
